@@ -206,5 +206,8 @@ const caseTail = "Definition M := Eval vm_compute in mismatches check_case cases
 	"Definition NCFG_DEFAULT_REFUSED := Eval vm_compute in (n_cfg_default_refused cases : Z).\nPrint NCFG_DEFAULT_REFUSED.\n" +
 	"Definition NXTCP_KCP := Eval vm_compute in (n_xtcp 0 cases : Z).\nPrint NXTCP_KCP.\n" +
 	"Definition NXTCP_QUIC := Eval vm_compute in (n_xtcp 1 cases : Z).\nPrint NXTCP_QUIC.\n" +
+	"Definition NXTCP_MISMATCHED := Eval vm_compute in (n_xtcp_mismatched cases : Z).\nPrint NXTCP_MISMATCHED.\n" +
+	"Definition NXTCP_KCP_SILENT_FIRST_OK := Eval vm_compute in (n_xtcp_kcp_silent_first cases : Z).\nPrint NXTCP_KCP_SILENT_FIRST_OK.\n" +
+	"Definition NXTCP_QUIC_SILENT_FIRST := Eval vm_compute in (n_xtcp_quic_silent_first cases : Z).\nPrint NXTCP_QUIC_SILENT_FIRST.\n" +
 	"Definition NFIRST := Eval vm_compute in (n_first cases : Z).\nPrint NFIRST.\n" +
 	"Definition NSYS_RACE_LOSER := Eval vm_compute in (n_sys_late cases : Z).\nPrint NSYS_RACE_LOSER.\n"
